@@ -57,6 +57,8 @@ def values_of(name, seed, full8=False):
     for k in range(3):          # fixed pseudo-random extras (independent of VERIF_SEED)
         rnd = random.Random(k * 1000003 + n)
         vs += [rnd.getrandbits(n), rnd.getrandbits(n)]
+    if n >= 8:          # interior values: counts and exponents around every narrower width
+        vs += [x for x in (3, 7, 8, 9, 15, 16, 17, 31, 32, 33, 63, 64, 65, 100, 127, 128, 129) if x < (1 << (n - 1))]
     out = []
     for v in vs:
         v = reduce_to(v, n, signed)
